@@ -769,7 +769,9 @@ func (x *c31xs) rwmutex() {
 				return "signals before decrementing"
 			}
 		}
-		attempted := pa.count(func(e c31event) bool { return (e.kind == "send" || e.kind == "default") && strings.Contains(e.name, "writerSignal") }) > 0
+		attempted := pa.count(func(e c31event) bool {
+			return (e.kind == "send" || e.kind == "default") && strings.Contains(e.name, "writerSignal")
+		}) > 0
 		if n0 == 1 && !attempted {
 			return "the last reader leaves without signalling writerSignal: a writer that holds the gate and waits for the readers to drain sleeps forever"
 		}
